@@ -43,7 +43,8 @@ AllDeviations == {"SaveOnePerIter",       \* D3: `if` instead of `while` around 
                   "GearDoubleAdd",        \* D1: gear start-up adds the increment twice
                   "SideStepWritesHidden", \* D2a: snapshot steps overwrite the multistep history
                   "HiddenSurvivesSolve",  \* D2b: solve() does not forget the multistep history
-                  "StaleItTag"}           \* D5: the final state keeps the caller's `it`
+                  "StaleItTag",           \* D5: the final state keeps the caller's `it`
+                  "StaleCfl"}             \* seeded: the time step of the first call is cached on the solver object
 
 VARIABLES kind, prof,   \* integrator kind and time-step profile of this solver object (fixed per behaviour)
           script,       \* calls still to make
@@ -67,7 +68,9 @@ vars == <<kind, prof, script, call, f0, arg, pc, nit, itstart, stime, last, last
 
 -----------------------------------------------------------------------------
 (* time-step profiles: dt is a function of the presented field's time only,  *)
-(* as calc_timestep is a function of the presented field only               *)
+(* as calc_timestep is a function of the presented field only, TIMES the    *)
+(* CFL number of the ACTIVE call (call.cfl, an integer multiplier): nothing  *)
+(* of an earlier call's CFL number survives on the solver object            *)
 Dt(p, t) == CASE p = "c4"  -> 4
               [] p = "c3"  -> 3
               [] p = "var" -> IF t % 8 = 0 THEN 4 ELSE 2
@@ -89,6 +92,9 @@ StepTerm(k, t, d, h, lst) ==
                         IN [t |-> t + 2*h, d |-> nd, last |-> nd]
                    ELSE LET nd == Append(d, [h |-> h, tag |-> Tag(lst, d)])
                         IN [t |-> t + h, d |-> nd, last |-> nd]
+
+CflNow == IF "StaleCfl" \in Deviations /\ hist # <<>> THEN hist[1].cfl ELSE call.cfl
+DtNow(t) == CflNow * Dt(prof, t)
 
 EffTot(c) == IF c.tot # None THEN c.tot
              ELSE IF Len(c.tsave) > 0 THEN c.tsave[Len(c.tsave)] ELSE None
@@ -162,8 +168,8 @@ PreSave ==
 
 IterBegin ==
   /\ pc = "loop" /\ ~End(call, stime, nit)
-  /\ dt' = Dt(prof, qn.t)
-  /\ traj' = Append(traj, [t |-> qn.t, dt |-> Dt(prof, qn.t), d |-> qn.d])
+  /\ dt' = DtNow(qn.t)
+  /\ traj' = Append(traj, [t |-> qn.t, dt |-> DtNow(qn.t), d |-> qn.d])
   /\ pc' = "save"
   /\ UNCHANGED <<kind, prof, script, call, f0, arg, nit, itstart, stime, last, last0, qn, isave, results,
                  mon, monAcc, hist>>
@@ -201,7 +207,7 @@ CheckEnd ==
 
 (* what a call leaves behind, in the vocabulary shared with the conformance judge (Contract.tla) *)
 Outcome == [op |-> call.op, t0 |-> arg.t, it0 |-> arg.it, d0 |-> arg.d, tsave |-> call.tsave,
-            tot |-> call.tot, maxit |-> call.maxit, freqs |-> call.freqs,
+            tot |-> call.tot, maxit |-> call.maxit, freqs |-> call.freqs, cfl |-> call.cfl,
             nit |-> nit, totnit |-> itstart + nit, itstart |-> itstart,
             tfin |-> qn.t, dfin |-> qn.d, traj |-> traj, res |-> results,
             mon |-> mon, monAll |-> monAcc \o mon,
